@@ -6,6 +6,7 @@ import (
 	"go/ast"
 	"go/token"
 	"go/types"
+	"math/big"
 	"sort"
 	"strings"
 
@@ -30,6 +31,7 @@ type Ctx struct {
 	tlg *TLG
 
 	declIdx map[*types.Func]declRef
+	gtables map[*ssa.Global][]*big.Int
 }
 
 type declRef struct {
